@@ -198,6 +198,38 @@ fn histories_for<V: Variant>(ctx: &mut Ctx, tier: Tier, seed: [u8; 32], label: &
     ctx.add_part(part);
 }
 
+/// light repetition check for seeds chosen by the branch they exercise: twice on one thread, once on a
+/// fresh thread, once in a fresh process
+fn repeat_for<V: Variant>(ctx: &mut Ctx, seed: u64, why: &str) {
+    let sb = seed_bytes(seed);
+    let target = target_name::<V>(sb);
+    let mut part = Part::new(&format!("repeat_{}_LE64({})", V::N, seed), &format!("{}::keygen(LE64({})) [{}]: twice on one thread, on a freshly spawned thread and in a fresh child process; all four key pairs byte-identical", V::name(), seed, why));
+    let a = crate::ctx::catch(|| kg::<V>(sb));
+    let b = crate::ctx::catch(|| kg::<V>(sb));
+    let c = on_fresh_thread(move || kg::<V>(sb));
+    let d = child_target(&[], &target, false);
+    part.states = 4;
+    part.transitions = 4;
+    part.validated = 3;
+    match (a, b, c) {
+        (Ok(a), Ok(b), Ok(c)) => {
+            if a != b || a != c || a != d {
+                let which = if a != b { "a second call on the same thread" } else if a != c { "a call on a fresh thread" } else { "a call in a fresh process" };
+                ctx.violation(
+                    format!("keygen-not-repeatable:n={}:seed={}", V::N, seed),
+                    format!("{}::keygen(LE64({})) [{}] differs between the first call and {} (sk starts {} vs {})", V::name(), seed, why, which, &a[..16], if a != b { &b[..16] } else if a != c { &c[..16] } else { &d[..d.len().min(16)] }),
+                    json!({"kind":"repeat","variant":V::N,"seed":hex(&sb)}),
+                );
+            } else {
+                part.outcome("four identical key pairs".to_string());
+            }
+        }
+        other => ctx.violation(format!("keygen-panic:n={}", V::N), format!("{}::keygen(LE64({})) panicked: {:?}", V::name(), seed, (other.0.err(), other.1.err(), other.2.err())), json!({"kind":"repeat","variant":V::N,"seed":hex(&sb)})),
+    }
+    part.exhaustive = true;
+    ctx.add_part(part);
+}
+
 fn bit_flips<V: Variant>(ctx: &mut Ctx, seed: [u8; 32], label: &str, bits: Vec<usize>) {
     let base = kg::<V>(seed);
     let res: Vec<(usize, String)> = bits
@@ -272,6 +304,17 @@ pub fn run(tier: Tier) {
         histories_for::<V512>(&mut ctx, Tier::Quick, ff, "fe||ff^31");
     }
 
+    // seeds on which key generation's rejection loop runs longest (a retry-count dependent behaviour shows here)
+    let top = if tier.thorough() { 3 } else { 1 };
+    let long512 = crate::util::seeds_with_most_rejections(512, off, 256, top);
+    let long1024 = crate::util::seeds_with_most_rejections(1024, off, 128, top);
+    ctx.set("seeds_with_longest_rejection_runs", json!({"512": long512, "1024": long1024}));
+    for (s, k) in &long512 {
+        repeat_for::<V512>(&mut ctx, *s, &format!("at least {} rejected candidates", k));
+    }
+    for (s, k) in &long1024 {
+        repeat_for::<V1024>(&mut ctx, *s, &format!("at least {} rejected candidates", k));
+    }
     bit_flips::<V512>(&mut ctx, seed_bytes(off), &format!("LE64({})", off), (0..256).collect());
     if tier.thorough() {
         bit_flips::<V512>(&mut ctx, ff, "fe||ff^31", (0..256).collect());
@@ -302,6 +345,10 @@ pub fn replay(case: &Value) -> Result<Option<String>, String> {
             let (ask, apk) = a.split_once(':').unwrap();
             let (csk, cpk) = c.split_once(':').unwrap();
             Ok(if ask == csk || apk == cpk { Some(format!("flipping seed bit {} leaves part of the key pair unchanged", b)) } else { None })
+        }
+        "repeat" => {
+            let (a, b) = if variant == 512 { (kg::<V512>(seed), kg::<V512>(seed)) } else { (kg::<V1024>(seed), kg::<V1024>(seed)) };
+            Ok(if a != b { Some("two keygen calls with the same seed on one thread give different keys".to_string()) } else { None })
         }
         "process-history" => {
             let h = case.get("history").and_then(|x| x.as_str()).ok_or("history")?;
